@@ -13,8 +13,74 @@ import vf
 
 PROP = 'C20'
 CFG = {'quick': 'gen/MC_C20gen_q.cfg', 'thorough': 'gen/MC_C20gen_t.cfg'}
+POOL = os.path.join(vf.SPEC, 'validation', 'C20_pool.json')
 ROUNDS = {'quick': 2, 'thorough': 12}
 TSAN = {'TSAN_OPTIONS': 'halt_on_error=0 report_signal_unsafe=0 exitcode=0 history_size=4'}
+
+
+SCHEMA_URI = {'d4': 'http://json-schema.org/draft-04/schema#', 'd6': 'http://json-schema.org/draft-06/schema#', 'd7': 'http://json-schema.org/draft-07/schema#',
+              'd2019': 'https://json-schema.org/draft/2019-09/schema', 'd2020': 'https://json-schema.org/draft/2020-12/schema'}
+GEN_SOURCES = [('jsonpath', 'gen/MC_C12', 'gen/MC_C12seg_q.cfg', 40), ('jsonpath', 'gen/MC_C12', 'gen/MC_C12filter_q.cfg', 40),
+               ('schema', 'gen/MC_C11', 'gen/MC_C11pairs_q.cfg', 30), ('schema', 'gen/MC_C11', 'gen/MC_C11uneval_q.cfg', 30)]      # (the refs plans contain self-references that recurse without consuming the instance: undefined by the specification)
+
+
+def unwire(v):
+    """JsonValue!Wire -> plain JSON"""
+    t = v[0]
+    if t == 'null':
+        return None
+    if t in ('bool', 'int'):
+        return v[1]
+    if t == 'str':
+        return ''.join(chr(c) for c in v[1])
+    if t == 'arr':
+        return [unwire(x) for x in v[1]]
+    if t == 'obj':
+        return {''.join(chr(c) for c in k): unwire(x) for k, x in v[1]}
+    raise ValueError(t)
+
+
+def generated_pool():
+    """a second artefact pool sampled evenly from the TLC-generated (query, document) cases of C12 and (schema, instances) cases of C11"""
+    docs, arts = {}, []
+    def doc_id(d):
+        k = 'g%d' % len(docs)
+        docs[k] = d
+        return k
+    for kind, mod, cfg, want in GEN_SOURCES:
+        path, _ = vf.tlc_gen(mod, cfg, timeout=1200)
+        n = vf.count_lines(path)
+        step = max(1, n // want)
+        carry = False
+        with open(path) as fh:
+            for i, line in enumerate(fh):
+                if i % step and not carry:
+                    continue
+                carry = False
+                c = json.loads(line)
+                if c.get('dc') or c.get('dev'):        # declared don't-care / deviation classes of C11 / C12 (e.g. non-terminating references) stay out
+                    carry = True                       # take the next eligible case instead
+                    continue
+                try:
+                    if kind == 'jsonpath':
+                        arts.append({'kind': 'jsonpath', 'text': ''.join(chr(x) for x in c['ex'][0]), 'docs': [doc_id(unwire(c['d']))]})
+                    else:
+                        sch = unwire(c['s'])
+                        if isinstance(sch, dict):
+                            sch = dict(sch)
+                            sch['$schema'] = SCHEMA_URI[c['d']]
+                        inst = [unwire(x[0]) for x in c.get('x', [])][:2] or [{}, [1, 'a']]
+                        arts.append({'kind': 'schema', 'format_assertion': False, 'text': sch, 'docs': [doc_id(x) for x in inst]})
+                except (KeyError, ValueError, TypeError):
+                    continue
+    body = json.dumps({'docs': docs, 'artefacts': arts}, sort_keys=True)
+    import hashlib
+    path = os.path.join(vf.ensure(os.path.join(vf.WORK, 'run')), 'c20-genpool-%s.json' % hashlib.sha256(body.encode()).hexdigest()[:12])
+    if not os.path.exists(path):
+        tmp = path + '.tmp%d' % os.getpid()
+        open(tmp, 'w').write(body)
+        os.rename(tmp, path)
+    return path, len(arts)
 
 
 def build():
@@ -41,10 +107,14 @@ def run(tier):
     g = vf.tlc_gen('gen/MC_C20gen', CFG[tier], timeout=300)
     rep.add_tlc(g[1])
     cases = [json.loads(l) for l in open(g[0])]
+    gpool, ngen = generated_pool()
+    rep.coverage['generated_pool_artefacts'] = ngen
     nval = nops = nrej = 0
     for rnd in range(ROUNDS[tier]):
-        recs = vf.run_shards(binary, g[0], nshards=4, env=TSAN, timeout=560)   # 4 shards x up to 16 threads
+        recs = vf.run_shards(binary, g[0], nshards=4, env=TSAN, timeout=560, args=['--pool', POOL + ',' + gpool])   # 4 shards x up to 16 threads
         for r in recs:
+            if r.get('k') == 'pool-error':       # an artefact of the curated pool does not compile on this tree: not a C20 observation
+                raise vf.InfraError('C20 pool artefact does not compile: %s' % r.get('what'))
             if r.get('k') in ('crash', 'garbage', 'signal'):
                 rep.violation({'what': 'harness-' + str(r.get('k')), 'rc': str(r.get('rc'))}, {'crash': True}, {'detail': json.dumps(r)[:3000]})
         byidx = {}
@@ -85,7 +155,10 @@ def run(tier):
                    '4 / 8 / 16 threads with rotating stream assignments; every stream repeated 15-40 times; %d rounds; 17 operations over a compiled '
                    '2020-12 schema (is_valid, validate with reporter, walk), three compiled JSONPath expressions (filter, regex filter, recursive '
                    'descent with paths|nodups), two compiled JMESPath expressions (filter+multiselect+pipe, sort_by) and a const json (lookup, '
-                   'compare, copy+mutate the copy, dump, iterate); the schedules are whatever the OS scheduler and ThreadSanitizer produced - '
+                   'compare, copy+mutate the copy, dump, iterate); plus the artefact pool spec/validation/C20_pool.json - 22 JSONPath expressions covering every built-in '
+                   'function (incl. tokenize, =~), unions, slices, recursive descent, parent; 17 JMESPath expressions covering every built-in function; 7 schemas over '
+                   'Drafts 4 / 7 / 2019-09 / 2020-12 covering every format with format assertion on, pattern keywords, references and recursion, applicators, '
+                   'dependencies, unevaluated* - each with 1-3 documents (55 operations) - and a second pool sampled evenly from the TLC-generated C12 (query, document) and C11 (schema, instances) cases (about 140 artefacts) - run in windows of 5 operations by 2 / 4 (thorough 8) threads, half forwards half backwards; the schedules are whatever the OS scheduler and ThreadSanitizer produced - '
                    'ThreadSanitizer reports races on any happens-before-unordered conflicting accesses it observed, not only those that corrupted a result'
                    % (len(cases), ROUNDS[tier]))
     cov['samples'] = vf.sample_lines(g[0], 2)
@@ -103,7 +176,7 @@ def replay(path):
     bad = 0
     try:
         for _ in range(10):
-            p = subprocess.run(['timeout', '300', binary, '--cases', tmp], capture_output=True, text=True, env=dict(os.environ, **TSAN))
+            p = subprocess.run(['timeout', '300', binary, '--cases', tmp, '--pool', POOL + ',' + generated_pool()[0]], capture_output=True, text=True, env=dict(os.environ, **TSAN))
             seq = {}
             for l in p.stdout.splitlines():
                 r = json.loads(l)
